@@ -261,8 +261,10 @@ def resolve_attr_path(node):
     while isinstance(x, ast.Attribute):
         attr_path.append(x.attr)
         x = x.value
-    if isinstance(x, ast.Name):
-        attr_path.append(x.id)
+    if not isinstance(x, ast.Name):
+        # Only calls on (dotted) names are resolvable, e.g. not on call results, constants or expressions
+        return None
+    attr_path.append(x.id)
     return ".".join(reversed(attr_path))
 
 
@@ -639,7 +641,7 @@ class RecordContextMatcher:
                 raise InvalidOperation("Error, only ast.Attribute or ast.Name are expected")
 
             func_name = resolve_attr_path(node)
-            if not (callable(self.data.get(func_name)) or func_name in WHITELIST):
+            if func_name is None or not (callable(self.data.get(func_name)) or func_name in WHITELIST):
                 raise InvalidOperation(
                     "Call '{}' not allowed. No calls other then whitelisted 'global' calls allowed!".format(func_name)
                 )
